@@ -260,6 +260,7 @@ proof fn lemma_c10_own_valid(enc: Seq<u8>)
     assert(be32_seq(x as int).subrange(0, 4) =~= be32_seq(x as int));
     assert((c ^ 0x5354_554eu32) ^ 0x5354_554eu32 == c) by (bit_vector);
 }
+//@include inc/attrs_sum.rs
 proof fn vx_sentinel() ensures false {}
 } // verus!
 fn main() {}
